@@ -455,6 +455,21 @@ def replay(path):
         want, want_final = bookkeeping_oracle(req.get("limit"), req["events"], consts)
         ok = "steps" in out and [(s[0], s[1]) for s in out["steps"]] == want and out["size_before_cleanup"] == want_final and out["size_final"] == 0
         print(f"replay {key}: {json.dumps(out)[:400]}")
+    elif "sizes_request" in r and "entries" in r:
+        consts = run_harness([{"op": "alloc", "f": "consts"}])[0]
+        out = run_harness([r["sizes_request"]])[0]
+        v = next(iter(out.get("values", {}).values()), None) if isinstance(out, dict) else None
+        ok = isinstance(v, dict) and "dyn" in v and v["dyn"] >= r["entries"] * consts["usize"]
+        print(f"replay {key}: {r['src']}  ->  {v}   ({r['entries']} stored value pointers)")
+    elif "injective_src" in r:
+        a, b = run_harness([dict(r, src=r["injective_src"], op="run"), {k: r[k] for k in ("op", "src", "get", "limits")}])
+        ok = _fail(a) is None and _fail(b) is None and a.get("inst") == "ok" and b.get("inst") == "ok" and 0 <= a["size1"] - b["size1"]
+        if ok:
+            m = re.search(r"range\((\d+)\)", r["src"])
+            mb = re.search(r"let b = (\d+);", r["src"])
+            n, bb = int(m.group(1)), int(mb.group(1))
+            ok = a["size1"] - b["size1"] <= (n - min(n, bb)) * 3 * 8
+        print(f"replay {key}: accounted {a.get('size1')} with an injective hash, {b.get('size1')} with the colliding one")
     elif "src" in r:
         req = {k: r[k] for k in ("op", "src", "get", "limits", "calls") if k in r}
         out = run_harness([req])[0]
